@@ -216,8 +216,14 @@ def ctl_extract(t):
     h = t["hdr"]["opts"]
     s0 = iters[0]["start"]
     tol_mesh = t["hdr"]["tol_mesh"]
-    tol_exp = round(math.log2(tol_mesh))
-    if 2.0 ** tol_exp != tol_mesh:
+    # the internal tolerance is a power of the poll-mesh multiplier (2 unless the user chose another base); the controller model works on the
+    # integer exponents, whatever the base
+    import numpy as _np
+    mult_ = float(h.get("poll_mesh_multiplier", 2.0) or 2.0)
+    if not (mult_ > 1.0 and tol_mesh > 0):
+        return None
+    tol_exp = round(math.log(tol_mesh) / math.log(mult_))
+    if float(_np.float64(mult_) ** _np.float64(tol_exp)) != tol_mesh:
         return None
     opts = {"D": t["hdr"]["D"], "nTry": int(h["search_n_try"]), "budget": max(0, int(s0["budget"])), "maxIter": max(0, int(s0["max_iter"])),
             "skip": bool(h["skip_poll_after_search"]), "cap": int(h["max_poll_grid_number"]), "sgm": int(h["search_grid_multiplier"]),
@@ -435,7 +441,8 @@ def _c03_predicates(rep, t, x, r, case, tag, completed):
         budget_loop = x["opts"]["budget"]
         fc_exit = t["log"]["func_count"] - len(x["tail_calls"])
         ok = {"max_fun_evals": fc_exit >= budget_loop, "max_iter": f["iter"] >= x["opts"]["maxIter"] - 1,
-              "tol_mesh": f["mesh_size"] < t["hdr"]["tol_mesh"],
+              # ... below the tolerance the USER set, not merely below whatever the run derived from it
+              "tol_mesh": f["mesh_size"] < (min(t["hdr"]["tol_mesh"], float(h["tol_mesh"])) if h.get("tol_mesh") is not None and float(h["tol_mesh"]) > 0 else t["hdr"]["tol_mesh"]),
               "tol_fun": f["iter"] > x["opts"]["stallIters"] - 1 and x["outs"][-1]["stallStop"], "none": False, "?": False}[mk]
         if not ok:
             rep.violation("msg_sound", "bads.py:optimize", f"termination message '{mk}' names a condition that does not hold at exit (fc={fc_exit}, budget={budget_loop}, iter={f['iter']}, mesh={f['mesh_size']}); {tag}", case)
